@@ -43,7 +43,7 @@ def eval_case(binary, case, timeout=60):
         json.dump(case, f)
         path = f.name
     try:
-        p = subprocess.run([binary, "case", "--file", path], stdout=subprocess.PIPE, stderr=subprocess.PIPE, text=True, timeout=timeout)
+        p = subprocess.run([binary, "case", "--file", path], stdout=subprocess.PIPE, stderr=subprocess.PIPE, text=True, errors="replace", timeout=timeout)
     except subprocess.TimeoutExpired:
         os.unlink(path)
         return "crash", [{"property": "?", "clause": "hang", "message": "timeout"}]
@@ -124,6 +124,18 @@ def minimise_case(binary, case, clause):
     return minimise(case, simpler_cases, still, budget=300)
 
 
+def case_of_index(binary, r, seed, mode, max_len):
+    """The case a dead worker was running (the progress file holds its index)."""
+    idx = r["progress_case"]
+    if idx is None or idx < 0:
+        return None
+    if r["tag"][1] == "enum":
+        out = run([binary, "enum", "--mode", mode, "--max-len", str(max_len), "--only", str(idx)]).stdout
+    else:
+        out = run([binary, "gen", "--seed", str(seed), "--run", str(idx), "--mode", mode]).stdout
+    return json.loads(out.strip().splitlines()[-1])
+
+
 def miri_arm(prop, seed, count, findings, notes):
     """Runs the same seeded stream under Miri (address seeds derived from VERIF_SEED): turns
     'touched freed, moved-out, misaligned or foreign memory' into a verdict instead of luck."""
@@ -143,7 +155,7 @@ def miri_arm(prop, seed, count, findings, notes):
             raise HarnessError("miri build failed: " + p.stderr[-2000:])
     for w in range(8):
         e = dict(env)
-        e["MIRIFLAGS"] = "-Zmiri-ignore-leaks -Zmiri-seed=%d" % ((seed + w) % (2 ** 31))
+        e["MIRIFLAGS"] = "-Zmiri-ignore-leaks -Zmiri-symbolic-alignment-check -Zmiri-seed=%d" % ((seed + w) % (2 ** 31))
         jobs.append(dict(cmd=["cargo", "+nightly", "miri", "run", "--offline", "-q", "-p", "vecsim", "--", "batch", "--seed", str(seed),
                               "--start", str(10 ** 9 + w * per), "--count", str(per), "--mode", mode, "--trace-cases"],
                          cwd=SIM, env=e, tag="miri%d" % w))
@@ -201,7 +213,7 @@ def check(prop, tier, seed):
         if r["report"] is None or r["rc"] != 0:
             if r["rc"] == 2:
                 raise HarnessError("vecsim usage error: " + r["stderr"][-500:])
-            crashes.append(dict(arm=profile, case=r["progress_case"], rc=r["rc"], stderr=r["stderr"][-500:]))
+            crashes.append(dict(arm=profile, case=case_of_index(bins[profile], r, seed, mode, max_len), rc=r["rc"], stderr=r["stderr"][-500:]))
             continue
         merged[profile].add(r["report"], profile)
         total.add(r["report"], profile)
